@@ -301,6 +301,7 @@ def run_path(job):
     drv = Driver(ext, splits, seed)
     viol = []
     okc = 0
+    held = []       # (what, array handed out earlier, copy taken then): a result is a value, later calls must not change it
     for i, e in enumerate(edges):
         post = e["post"]
         nr, nt, nte = drv.dims(post["split"])
@@ -340,6 +341,13 @@ def run_path(job):
                 d = compare_view(kind, val, ev, K, ncb)
                 if d:
                     viol.append({"step": i, "op": e["ret"], "what": "returned " + d})
+                if isinstance(val, np.ndarray) and val.dtype != object:
+                    held.append((f"{kind} returned at step {i}", val, np.array(val)))
+                    held[:] = held[-6:]
+        for what, ref, cp in held:
+            if not np.array_equal(ref, cp):
+                viol.append({"step": i, "op": e["ret"], "what": f"the array {what} was changed by a later call"})
+                break
         bc = drv.pending or drv.bystander_changed()
         drv.pending = None
         if bc:
